@@ -169,11 +169,21 @@ func totality(p *canvas.Path, r *vf.R, cs Case) error {
 	rsnap := snapshot(rect)
 	for _, c := range calls(rect) {
 		snap := snapshot(p)
-		if err := vf.Try(c.name, func() {
-			// a call that does not return within 30 s is recorded as a violation (hang) and ends the process
-			vf.Watchdog("build", hang{Call: c.name, Path: p.String(), Case: cs}, 30*time.Second, func() { c.f(p) })
-		}); err != nil {
-			boolean := c.name == "And" || c.name == "Or" || c.name == "Xor" || c.name == "Not" || c.name == "rect.And(p)" || c.name == "Settle" || c.name == "Stroke" || c.name == "Offset"
+		var herr error
+		err := vf.Try(c.name, func() {
+			// a call that does not return within 30 s is a failure (hang); it is left running in its goroutine
+			herr = vf.WatchdogErr(30*time.Second, func() { c.f(p) })
+		})
+		boolean := c.name == "And" || c.name == "Or" || c.name == "Xor" || c.name == "Not" || c.name == "rect.And(p)" || c.name == "Settle" || c.name == "Stroke" || c.name == "Offset"
+		if err == nil && herr != nil {
+			// F10h: the sweep behind these calls does not terminate on some inputs (see F01d), here also depending on
+			// what the process ran before (the recorded inputs return at once in a fresh process)
+			if boolean && r.Excluded("F10h", true) {
+				return nil // the hanging goroutine may still write to p: no further calls on this path
+			}
+			return vf.Errorf("%s on %v: %v", c.name, p, herr)
+		}
+		if err != nil {
 			if boolean && r.Excluded("F01c", true) {
 				// known finding of C01/C04: the sweep-line panics on some degenerate inputs; judged there
 				continue
